@@ -57,3 +57,11 @@ class Cylinder(CenteredScatterer):
                                            "".format(rotation))
         self.rotation = rotation
         super().__init__(center)
+
+        try:
+            if np.any(np.array([self.h, self.d]) < 0):
+                raise InvalidScatterer(self, "height or diameter is negative")
+        except TypeError:
+            # sizes given as priors (or not given) are not checked, as for
+            # a Sphere
+            pass
